@@ -3,8 +3,19 @@ package middleware
 import (
 	"log/slog"
 	"net/http"
+	"net/url"
 	"reservoir/webserver/dashboard/csp"
+	"strings"
 )
+
+// Reports whether the Origin header names the host the request was sent to.
+func originIsHost(origin string, host string) bool {
+	u, err := url.Parse(origin)
+	if err != nil {
+		return false
+	}
+	return strings.EqualFold(u.Host, host)
+}
 
 func Harden(next http.Handler) http.Handler {
 	return http.HandlerFunc(func(w http.ResponseWriter, r *http.Request) {
@@ -22,7 +33,9 @@ func Harden(next http.Handler) http.Handler {
 		origin := r.Header.Get("Origin")
 
 		isSame := origin == "" || (site == "" || site == "same-origin" || site == "same-site")
-		allowed := isSame
+		// The browser says so itself, or (no Sec-Fetch-Site) the Origin is not this host
+		isCrossSite := site == "cross-site" || (site == "" && origin != "" && !originIsHost(origin, r.Host))
+		allowed := isSame && !isCrossSite
 
 		if !allowed {
 			slog.Warn("Cross-site request blocked", "method", r.Method, "path", r.URL.Path, "remote", r.RemoteAddr, "origin", origin, "site", site)
